@@ -286,7 +286,7 @@ def run(tier):
     res = common.Result(PID, tier, "(a) random token streams (keywords, near-keywords, identifiers, all numeric literal shapes, strings with escapes, every operator, random "
                         "separators and comments) tokenised by the real lexer and by a reference tokenizer; (b) one small valid program per declaration / statement "
                         "shape must be accepted; (c) programs pinning fresh variables to random constant expression trees (n-ary + - * /, unary, relations, & | ^ -> !, "
-                        "bool ==/!=, redundant parentheses, random layout) - the solution must report exactly the denoted value; non-trivial = stream of > 3 tokens / "
+                        "bool ==/!=, redundant parentheses, random layout, a method with a return value) - the solution must report exactly the denoted value; (d) the generated programs of the constraint and planning families must be accepted (no error other than unsolvable); non-trivial = stream of > 3 tokens / "
                         "expression tree of depth >= 2 / any syntax program")
     res.assumptions = ["mixing different operators of one precedence level without parentheses is never generated (grouping not documented)",
                        "a parenthesised bare identifier is never generated: '(x) + 1' is a cast in this language",
@@ -298,6 +298,14 @@ def run(tier):
     common.pmap(lex_work, [(lexe, s, 250) for s in range(0, nlex, 250)], res)
     common.pmap(prog_work, [(probes, s, 20) for s in range(0, npin, 20)], res)
     res.merge(syntax_work(probes["dbg"], 0))
+    # (d) every generated (valid by construction) program of the other properties' families must be ACCEPTED: read() may only fail with the
+    # unsolvable / inconsistent-problem outcome, never with another error
+    from checks import c01, plan
+    nacc = 400 if tier == "quick" else 4000
+    common.pmap(c01.cons_work, [(probes, s + 900000, 20, PID) for s in range(0, nacc, 20)], res)
+    common.pmap(c01.cons_work, [(probes, s + 900000, 20, PID, "tp") for s in range(0, nacc // 2, 20)], res)
+    for fam in plan.FAMILIES[PID]:
+        common.pmap(plan.work, [(probes, fam, s + 900000, 20, PID) for s in range(0, nacc // 2, 20)], res)
     res.gate("token streams compared", res.counters.get("lex: streams compared", 0) > 1000)
     res.gate("pinned values compared", res.counters.get("pin: values compared", 0) > 500)
     return res.finish()
